@@ -241,7 +241,7 @@ def gen_history(rng, k, tier, sms, failures=False):
     if rng.random() < 0.3:
         pool['pass_worker_id'] = True
     if rng.random() < 0.3:
-        pool['shared_objects'] = ['s', 0]
+        pool['shared_objects'] = rng.choice([['s', 0], ['s', 0], [], 0])
     if rng.random() < 0.4:
         pool['use_worker_state'] = True
     has_init, has_exit = rng.random() < 0.5, rng.random() < 0.5
@@ -255,7 +255,7 @@ def gen_history(rng, k, tier, sms, failures=False):
         if calls and r < 0.3:
             which = rng.choice(['pass_on_worker_id', 'set_shared_objects', 'set_use_worker_state', 'set_keep_alive'])
             if which == 'set_shared_objects':
-                arg = rng.choice([None, ['s', shared_v]])
+                arg = rng.choice([None, ['s', shared_v], ['s', shared_v], {}, 0])
                 shared_v += 1
             else:
                 arg = rng.random() < 0.5
@@ -274,7 +274,7 @@ def gen_history(rng, k, tier, sms, failures=False):
         if call['input'] == 'gen':
             params['iterable_len'] = n
         if failures and rng.random() < 0.45:
-            mode = rng.choice(['raise', 'raise', 'timeout', 'die', 'closed_early', 'nested'])
+            mode = rng.choice(['raise', 'raise', 'timeout', 'die', 'closed_early', 'nested', 'init_raise', 'init_raise', 'exit_raise'])
             call['fail'] = mode
             key = call['base'] + rng.randrange(n)
             if call['elem'] != 'scalar' and mode in ('raise', 'timeout', 'die'):
@@ -298,6 +298,13 @@ def gen_history(rng, k, tier, sms, failures=False):
             elif mode == 'nested':
                 call['nested_misuse'] = True
                 call['expect_exc'] = True
+            elif mode in ('init_raise', 'exit_raise'):
+                # the init / exit function of THIS call raises (a distinct exception per call); n >= 1 so that it runs
+                phase = 'init' if mode == 'init_raise' else 'exit'
+                call[phase] = True
+                call[phase + '_raises'] = [rng.choice(['ValueError', 'CustomError', 'AttrError']), call['base']]
+                call['expect_exc'] = True
+                pool['keep_alive'] = False          # fresh workers for every call: init runs, exit runs at the end of the call
         calls.append(call)
         j += 1
     calls.append({'kind': 'stop_and_join', 'want_exit_results': True})
